@@ -4,6 +4,7 @@ from ..fn import World
 from ..index import AnalysisError, dotted
 from ..astutil import text, short, endswith, calls_in, walk_no_nested
 from .. import events as E
+from ._h_E import Flow, arg, argn, nargs, return_cases, leaf_polarity
 
 EXPLANATION = (
   "Decides only the structural legs of the reopen fixed point: (R1) loading writes cells through "
@@ -17,107 +18,248 @@ EXPLANATION = (
   "fixed point itself (that Calculate emits nothing after a reload).")
 
 
+def _attr_call(e, attr):
+  return isinstance(e, ast.Call) and isinstance(e.func, ast.Attribute) and e.func.attr == attr
+
+
 def check(run, repo, tier):
   w = World(repo)
+  r1_loader(run, w)
+  r2_compare_twice(run, w)
+  r3_decode(run, w)
+
+
+def r1_loader(run, w):
   R1 = run.rule("C07-R1", "loading goes through the same writer as doc actions", floor=4)
   lt = w.fn("engine.Engine.load_table")
   cfg = lt.cfg
+  flow = Flow(lt)
   p = lt.fi.params()[1]
   clears = [(n, c) for (n, c, nm) in lt.calls() if isinstance(c.func, ast.Attribute) and
             c.func.attr == "clear" and lt.world.typer.is_column(lt.type_of(c.func.value))]
-  loops = [s for s in lt.node.body if isinstance(s, ast.For) and
-           text(s.iter).endswith("all_columns.values()")]
-  ok = len(clears) == 1 and len(loops) == 1 and not any(isinstance(x, ast.If)
-                                                        for x in ast.walk(loops[0]))
+  if not clears:
+    raise AnalysisError("load_table: no column.clear() call found (clearing moved?)")
+  # the cleared column is the variable of a loop over every column of the table, and nothing
+  # decides per column whether to clear it
+  loop_nodes = set()
+  ok = len(clears) == 1
+  for (n, c) in clears:
+    src = flow.loop_source(c.func.value, n.id)
+    ok = ok and src is not None and text(src[0]).endswith("all_columns.values()") and \
+        not flow.required_facts(n.id)
+    if src is not None:
+      loop_nodes.add(src[1])
   run.ob(R1, lt.qualname, "for column in table.all_columns.values(): column.clear()",
          "every column is emptied before loading, whether or not the data mentions it", ok,
          fi=lt.fi)
   adds = [(n, c) for (n, c, nm) in lt.calls() if nm == "self.add_records"]
-  ok = len(adds) == 1 and text(adds[0][1].args[0]) == p + ".table_id" and \
-      text(adds[0][1].args[1]) == p + ".row_ids" and \
-      not (cfg.reach_after({adds[0][0].id}) & {n.id for (n, c) in clears}) and \
-      cfg.dominated_by(adds[0][0].id, {x.id for x in cfg.nodes if x.stmt in loops})
+  ok = len(adds) == 1
+  if ok:
+    an, ac = adds[0]
+    a0, a1 = argn(w, lt, ac, 0), argn(w, lt, ac, 1)
+    ok = a0 is not None and a1 is not None and \
+        flow.itext(a0, an.id, stop=(p,)) == p + ".table_id" and \
+        flow.itext(a1, an.id, stop=(p,)) == p + ".row_ids" and \
+        not (cfg.reach_after({an.id}) & {n.id for (n, c) in clears}) and \
+        bool(loop_nodes) and cfg.dominated_by(an.id, loop_nodes) and \
+        not flow.required_facts(an.id)
   run.ob(R1, lt.qualname, "self.add_records(data.table_id, data.row_ids, columns)",
          "loaded rows are added by the function BulkAddRecord uses", ok, fi=lt.fi)
   ar = w.fn("engine.Engine.add_records")
-  sets = [c for (n, c, nm) in ar.calls() if E.is_column_mutation(c, nm, ar) and
+  aflow = Flow(ar)
+  sets = [(n, c) for (n, c, nm) in ar.calls() if E.is_column_mutation(c, nm, ar) and
           c.func.attr == "set"]
-  ok = len(sets) == 2 and any(text(c.args[0]) == text(c.args[1]) for c in sets) and \
-      any(isinstance(s, ast.For) and isinstance(s.iter, ast.Call) and
-          dotted(s.iter.func) == "zip" and any(c in list(ast.walk(s)) for c in sets)
-          for s in ast.walk(ar.node))
+  def from_zip(n, c):
+    """(row, value) of the write are bound together by a `for ... in zip(...)`."""
+    a0, a1 = argn(w, ar, c, 0), argn(w, ar, c, 1)
+    if not (isinstance(a0, ast.Name) and isinstance(a1, ast.Name)):
+      return False
+    b0, b1 = aflow.binder(a0.id, n.id), aflow.binder(a1.id, n.id)
+    return b0 is not None and b0 is b1 and b0.kind == "for" and \
+        isinstance(b0.stmt.iter, ast.Call) and dotted(b0.stmt.iter.func) == "zip"
+  def same_args(n, c):
+    a0, a1 = argn(w, ar, c, 0), argn(w, ar, c, 1)
+    return a0 is not None and a1 is not None and aflow.same_value(a0, n.id, a1, n.id)
+  ok = len(sets) == 2 and any(same_args(n, c) for (n, c) in sets) and \
+      any(from_zip(n, c) for (n, c) in sets)
   run.ob(R1, ar.qualname, "id_column.set(row_id, row_id); column.set(row_id, value) for zip(...)",
          "every loaded cell passes through Column.set (type-specific normalisation)", ok, fi=ar.fi)
   # only columns known to the table are loaded; unknown ones are dropped, not an error
-  ok = any(isinstance(n, ast.DictComp) and "has_column" in text(n) for n in ast.walk(lt.node))
+  ok = any(_attr_call(n, "has_column") for n in ast.walk(lt.node))
   run.ob(R1, lt.qualname, "columns = {... if table.has_column(col_id)}",
          "stored columns the schema does not know are ignored", ok, fi=lt.fi, nontrivial=False)
 
+
+def r2_compare_twice(run, w):
   R2 = run.rule("C07-R2", "change emission compares twice: strict_equal on the stored value, "
                 "equal_encoding on the (before, after) delta", floor=2)
   rs = w.fn("engine.Engine._recompute_step")
   cfg = rs.cfg
+  flow = Flow(rs)
   sets = [(n, c) for (n, c, nm) in rs.calls() if E.is_column_mutation(c, nm, rs)]
-  tests = {n.id for n in cfg.nodes if n.kind == "if" and isinstance(n.stmt.test, ast.UnaryOp) and
-           isinstance(n.stmt.test.op, ast.Not) and isinstance(n.stmt.test.operand, ast.Call) and
-           dotted(n.stmt.test.operand.func) == "strict_equal"}
-  ok = bool(sets) and bool(tests) and all(cfg.dominated_by(n.id, tests) for (n, c) in sets)
-  okargs = False
-  for t in tests:
-    a = cfg.nodes[t].stmt.test.operand.args
-    for (n, c) in sets:
-      prev = text(a[1]) if text(a[0]) == text(c.args[1]) else text(a[0])
-      okargs = okargs or ({text(a[0]), text(a[1])} >= {text(c.args[1])} and any(
-        isinstance(v, ast.Call) and isinstance(v.func, ast.Attribute) and v.func.attr == "raw_get"
-        for v in E.local_defs(rs.node, prev)))
+  if not sets:
+    raise AnalysisError("_recompute_step: column write not found")
+  ok = True
+  ok_conv = True
+  for (n, c) in sets:
+    val = argn(w, rs, c, 1)
+    found = {"conv": False}
+    def unchanged(e, i):
+      """not strict_equal(<the value written>, <the stored value read by raw_get>)"""
+      if not (isinstance(e, ast.Call) and dotted(e.func) == "strict_equal" and len(e.args) == 2) \
+          or val is None:
+        return False
+      for (x, y) in ((e.args[0], e.args[1]), (e.args[1], e.args[0])):
+        if flow.same_value(x, i, val, n.id) and \
+            flow.denotes(y, i, lambda v, k: _attr_call(v, "raw_get")):
+          if flow.denotes(x, i, lambda v, k: _attr_call(v, "convert")):
+            found["conv"] = True
+          return True
+      return False
+    ok = ok and flow.guarded(n.id, unchanged, False)
+    ok_conv = ok_conv and found["conv"]
   run.ob(R2, rs.qualname, "if not strict_equal(value, previous): record + set",
-         "a recomputed value equal (with type) to the stored one causes no change", ok and okargs,
+         "a recomputed value equal (with type) to the stored one causes no change", ok,
          fi=rs.fi)
   # the value compared is the converted value
-  conv = [n for n in cfg.nodes if n.kind == "stmt" and isinstance(n.stmt, ast.Assign) and
-          isinstance(n.stmt.value, ast.Call) and (rs.name(n.stmt.value) or "").endswith(".convert")]
-  ok = bool(conv) and all(cfg.dominated_by(t, {c.id for c in conv}) for t in tests)
   run.ob(R2, rs.qualname, "value = col.convert(value) before the comparison",
-         "values are compared after conversion to the column type", ok, fi=rs.fi)
+         "values are compared after conversion to the column type", ok and ok_conv, fi=rs.fi)
   ca = w.fn("action_summary.ActionSummary._changes_to_actions")
-  ok = False
-  for n in ast.walk(ca.node):
-    if isinstance(n, ast.Assign) and text(n.targets[0]) == "full_row_ids":
-      gens = [g for g in ast.walk(n.value) if isinstance(g, ast.comprehension)]
-      ok = any(any("equal_encoding(before, after)" in text(c) and text(c).startswith("not ")
-                   for c in g.ifs) and "(before, after)" in text(g.target) for g in gens)
   run.ob(R2, ca.qualname, "full_row_ids = sorted(r for r, (before, after) in deltas if not "
          "equal_encoding(before, after))", "rows whose before and after encode identically are "
-         "not emitted", ok, fi=ca.fi)
+         "not emitted", _emitted_rows_filtered(w, ca), fi=ca.fi)
   ee = w.fn("objtypes.equal_encoding")
-  rets = [n for n in ast.walk(ee.node) if isinstance(n, ast.Return)]
-  ok = any(text(r.value) == "encode_object(a) == encode_object(b)" for r in rets)
+  eflow = Flow(ee)
+  ps = ee.fi.params()
+  want = {"encode_object(%s)" % ps[0], "encode_object(%s)" % ps[1]} if len(ps) == 2 else None
+  ok = False
+  for (rn, l) in return_cases(eflow):
+    e = l.expr
+    if isinstance(e, ast.Compare) and len(e.ops) == 1 and isinstance(e.ops[0], ast.Eq):
+      ok = ok or {eflow.itext(e.left, l.nid, stop=ps),
+                  eflow.itext(e.comparators[0], l.nid, stop=ps)} == want
   run.ob(R2, ee.qualname, "encode_object(a) == encode_object(b)", "equality is equality of what "
          "would be sent and stored", ok, fi=ee.fi)
 
+
+def _pair_names(target):
+  """For a loop / comprehension target over dict items, (row name, {names of the two halves of the
+  value} or the single value name): `r, (b, a)` -> ('r', ('b', 'a'), None); `r, d` -> ('r', None, 'd')."""
+  if isinstance(target, (ast.Tuple, ast.List)) and len(target.elts) == 2 and \
+      isinstance(target.elts[0], ast.Name):
+    v = target.elts[1]
+    if isinstance(v, (ast.Tuple, ast.List)) and len(v.elts) == 2 and \
+        all(isinstance(x, ast.Name) for x in v.elts):
+      return target.elts[0].id, (v.elts[0].id, v.elts[1].id), None
+    if isinstance(v, ast.Name):
+      return target.elts[0].id, None, v.id
+  return None
+
+
+def _is_pair_test(e, pair, whole):
+  """equal_encoding(<before>, <after>) on the two halves of the iterated delta value."""
+  if not (isinstance(e, ast.Call) and dotted(e.func) == "equal_encoding"):
+    return False
+  if len(e.args) == 1 and isinstance(e.args[0], ast.Starred):
+    return whole is not None and text(e.args[0].value) == whole
+  if len(e.args) != 2:
+    return False
+  got = {text(a) for a in e.args}
+  if pair is not None:
+    return got == set(pair)
+  return got == {"%s[0]" % whole, "%s[1]" % whole}
+
+
+def _emitted_rows_filtered(w, ca):
+  """The rows every emitted action is built from come from one pass over the column delta that
+  keeps a row only when `not equal_encoding(before, after)` (comprehension or loop spelling)."""
+  from ..guards import facts
+  flow = Flow(ca)
+  cfg = ca.cfg
+  delta = ca.fi.params()[3]
+  filt_nodes = set()
+  def over_delta(it):
+    return _attr_call(it, "items") and text(it.func.value) == delta
+  # comprehension spelling
+  for n in cfg.nodes:
+    for e in n.exprs:
+      for x in walk_no_nested(e):
+        if isinstance(x, (ast.GeneratorExp, ast.ListComp, ast.SetComp)) and \
+            len(x.generators) == 1 and over_delta(x.generators[0].iter):
+          g = x.generators[0]
+          pn = _pair_names(g.target)
+          if pn is None or text(x.elt) != pn[0]:
+            continue
+          fs = [f for t in g.ifs for f in facts(t, True)]
+          if fs and all(pol is False and _is_pair_test(t, pn[1], pn[2]) for (t, pol) in fs):
+            filt_nodes.add(n.id)
+  # loop spelling: <rows>.append(r) reached only when equal_encoding(before, after) is false
+  for n in cfg.nodes:
+    if n.kind == "for" and over_delta(n.stmt.iter):
+      pn = _pair_names(n.stmt.target)
+      if pn is None:
+        continue
+      for (m, c, nm) in ca.calls():
+        if _attr_call(c, "append") or _attr_call(c, "add"):
+          if len(c.args) == 1 and text(c.args[0]) == pn[0] and \
+              flow.binder(pn[0], m.id) is n:
+            req = [f for f in flow.required_facts(m.id) if f[2] in cfg.reach_after({n.id})]
+            if req and all(pol is False and _is_pair_test(t, pn[1], pn[2])
+                           for (t, pol, i) in req):
+              filt_nodes.add(m.id)
+  if not filt_nodes:
+    return False
+  # every emitted update action takes its rows from that filtered pass
+  inner = [s for s in ca.node.body if isinstance(s, ast.FunctionDef)]
+  names = {f.name for f in inner}
+  du = flow.du
+  emits = [(n, c) for (n, c, nm) in ca.calls() if nm in names]
+  if not emits:
+    raise AnalysisError("_changes_to_actions: no call of the local action builder found")
+  for (n, c) in emits:
+    a0 = argn(w, ca, c, 0)
+    if a0 is None or not (du.backward_slice([a0]) & filt_nodes):
+      return False
+  return True
+
+
+def r3_decode(run, w):
   R3 = run.rule("C07-R3", "_decode_db_value unmarshals exactly bytes and decodes the result; "
                 "other values pass through", floor=2)
   dv = w.fn("main._decode_db_value")
+  flow = Flow(dv)
   p = dv.fi.params()[0]
-  ifs = [s for s in dv.node.body if isinstance(s, ast.If)]
-  ok = False
-  if len(ifs) == 1:
-    t = ifs[0].test
-    tvar = None
-    for v in ast.walk(dv.node):
-      if isinstance(v, ast.Assign) and text(v.value) == "type(%s)" % p:
-        tvar = text(v.targets[0])
-    cond = text(t) in ("%s is bytes" % tvar, "type(%s) is bytes" % p, "%s == bytes" % tvar)
-    body = ifs[0].body
-    ok = cond and len(body) == 1 and isinstance(body[0], ast.Return) and \
-        text(body[0].value) == "objtypes.decode_object(marshal.loads(%s))" % p and \
-        len(ifs[0].orelse) == 1 and isinstance(ifs[0].orelse[0], ast.Return) and \
-        text(ifs[0].orelse[0].value) == p
+  def is_type_of_p(x, n):
+    return isinstance(x, ast.Call) and dotted(x.func) == "type" and len(x.args) == 1 and \
+        flow.itext(x.args[0], n, stop=(p,)) == p
+  def is_bytes_test(e, i):
+    if not (isinstance(e, ast.Compare) and len(e.ops) == 1 and
+            isinstance(e.ops[0], (ast.Is, ast.Eq))):
+      return False
+    a, b = e.left, e.comparators[0]
+    for (x, y) in ((a, b), (b, a)):
+      if text(y) == "bytes" and flow.denotes(x, i, is_type_of_p):
+        return True
+    return False
+  seen = set()
+  ok = True
+  for (rn, l) in return_cases(flow):
+    t = flow.itext(l.expr, l.nid, stop=(p,)) if l.expr is not None else None
+    pol = leaf_polarity(flow, l, is_bytes_test)
+    if t == "objtypes.decode_object(marshal.loads(%s))" % p and pol is True:
+      seen.add("decode")
+    elif t == p and pol is False:
+      seen.add("pass")
+    else:
+      ok = False
   run.ob(R3, dv.qualname, "if type(value) is bytes: decode_object(marshal.loads(value)) else value",
-         "exactly the marshalled BLOBs are decoded", ok, fi=dv.fi)
+         "exactly the marshalled BLOBs are decoded", ok and seen == {"decode", "pass"}, fi=dv.fi)
   td = w.fn("main.table_data_from_db")
-  ok = any(endswith(dotted(c.func), "decode_bulk_values") and len(c.args) == 2 and
-           text(c.args[1]) == "_decode_db_value" for c in calls_in(td.node))
+  ok = False
+  for c in calls_in(td.node):
+    if endswith(dotted(c.func), "decode_bulk_values") and nargs(c) == 2:
+      a1 = argn(w, td, c, 1)
+      ok = ok or (a1 is not None and text(a1) == "_decode_db_value")
   run.ob(R3, td.qualname, "actions.decode_bulk_values(parsed, _decode_db_value)",
          "every cell read from the database goes through the decoder", ok, fi=td.fi)
   lt2 = w.fn("main.run.load_table")
